@@ -17,9 +17,10 @@ package dmap
 // Deep callees of the command handlers whose bodies are not verified for C16: only the shape of their
 // results is assumed (a nil error comes with a usable result). Listed as trusted in the evidence.
 //@ func (s *Service) getOrCreateDMap(name string) (*DMap, error)
-//@   props C16
+//@   props C16 C19
 //@   trusted
 //@   ensures #nonnil: result.1 == nil ==> result.0 != nil && result.0.s == s
+//@   ensures #registered [C19]: result.1 == nil ==> (name in s.dmaps) && s.dmaps[name] == result.0
 
 //@ func (dm *DMap) Get(ctx context.Context, key string) (storage.Entry, error)
 //@   props C16 C08
@@ -644,6 +645,15 @@ package dmap
 //@   ensures #found: (result.1 == nil) == (name in s.dmaps) && (result.1 == nil ==> result.0 == s.dmaps[name])
 //@   ensures #err_kind: result.1 == nil || result.1 == ErrDMapNotFound
 //@   modifies nothing
+
+// The per-member step of Destroy: the DMap is looked up (created if need be) before the local sweep, so that the
+// sweep finds the name registered - destroyLocalDMap skips every partition for a name it does not know.
+//@ func (s *Service) destroyCommandHandler(conn redcon.Conn, cmd redcon.Command)
+//@   props C19
+//@   flag wired 2
+//@   requires #args: len(cmd.Args) >= 1
+//@   requires #parts: s.parts()
+//@   atcall \)\.destroyLocalDMap$ requires #the_dmap_is_registered_on_this_member [C19]: (arg1 in s.dmaps) && s.dmaps[arg1] != nil && s.dmaps[arg1].s == s
 
 //@ func (s *Service) destroyLocalDMap(name string) error
 //@   props C19
